@@ -25,6 +25,7 @@ RULE = (
     'SHA-1 of the case JSON.'
 )
 RULE += (' ' + 'Also generated: sequences of Buildables over unhashable callable instances (eq=True dataclasses with __call__).')
+RULE += (' ' + 'Round 7: keyword arguments that become positional-only / *args names through fdl.update_callable to a callable without **kwargs.')
 RULE += (' ' + 'Round 6: argument values without a truth value (array-like: bool() raises).')
 RULE += (' ' + "Rounds 3-5: bound methods and the plain functions they wrap in generated order (class created per case); **kwargs entries named like positional-only / *args / **kwargs parameters; tags on the root's arguments; positional defaults None / 0; OrderedDict and list-subclass argument values; **kwargs configured in non-alphabetical order, with a clause on the order the callee receives them.")
 ASSUMPTIONS = [
@@ -76,6 +77,17 @@ def strategy_(draw, tier):
     fnspec = draw(recipes.fnspecs())
   nav = len(nodes)
   pick = lambda: recipes.child_ref(draw, nav, leaf_st, p_alias=0.6)
+  if draw(st.sampled_from(range(15))) == 0:
+    # history: configured by keyword over a **kwargs callable, then fdl.update_callable to a
+    # callable without **kwargs in which some of those names are positional-only / the *args name
+    tgt, clash, ok = draw(st.sampled_from([
+        ('things:po2', ['p0', 'p1'], ['a']), ('things:pos_none', ['a', 'b'], ['c']),
+        ('things:join_none', ['rest'], ['first', 'sep']), ('things:po3', ['p1', 'p2', 'p0'], ['a'])]))
+    names = draw(st.lists(st.sampled_from(clash + ok + ok), min_size=1, max_size=3, unique=True))
+    root = {'k': 'B', 'bt': 'Config', 'fn': {'kind': 'sym', 'name': 'things:kwf'}, 'pos': [],
+            'kw': {n: pick() for n in names}, 'edits': [['try_update_callable', tgt]]}
+    nodes.append(root)
+    return {'nodes': nodes, 'root': len(nodes) - 1, 'pattern': 'updated_callable'}
   pos, kw, edits, pattern = draw(recipes.arg_program(fnspec, pick))
   root = {'k': 'B', 'bt': 'Config', 'fn': fnspec, 'pos': pos, 'kw': kw, 'edits': edits}
   if draw(st.sampled_from(range(6))) == 0:
